@@ -139,7 +139,7 @@ def _parse_file(path, nodes, meta, deftags):
                     cur.novac = True
                 elif word == 'vac':
                     cur.force_vac = True
-                elif word in ('contract', 'loop', 'hint'):
+                elif word in ('contract', 'loop', 'hint', 'split'):
                     curblock = (word, arg, [])
                     cur.blocks.append(curblock)
                 else:
@@ -251,10 +251,19 @@ def _apply_call(text, name, repl, opts, what):
         cl = rl.match_close(text, m, op)
         args = ''.join(ch for k, ch in enumerate(text[op + 1:cl]) if m[op + 1 + k])
         # macros inside are diagnostics text; strip `format!(...)` wrappers before the check
-        if 'unchecked' not in opts and DIAG_FORBID.search(re.sub(r'\b\w+!\s*\(', '(', args)):
+        r2 = repl
+        if 'keepidx' in opts:
+            idx = _idx_exprs(args)
+            r2 = repl.replace('()', '((' + ''.join(e + ', ' for e in idx) + '))', 1)
+            rest = args
+            for e in idx:
+                rest = rl.norm_ws(rest).replace(e, '')
+            if DIAG_FORBID.search(re.sub(r'\b\w+!\s*\(', '(', rest)):
+                raise Undecided('rule %s: call argument contains a possibly-failing expression: %s' % (what, rl.norm_ws(args)[:80]))
+        elif 'unchecked' not in opts and DIAG_FORBID.search(re.sub(r'\b\w+!\s*\(', '(', args)):
             raise Undecided('rule %s: call argument contains a possibly-failing expression: %s' % (what, rl.norm_ws(args)[:80]))
-        text = _pad_sub(text, mm.start(), cl + 1, repl)
-        pos = mm.start() + len(repl)
+        text = _pad_sub(text, mm.start(), cl + 1, r2)
+        pos = mm.start() + len(r2)
         n += 1
     if want == '*':
         pass
@@ -264,6 +273,94 @@ def _apply_call(text, name, repl, opts, what):
     elif n != int(want):
         raise Undecided('rule %s: matched %d times, unit requires %s' % (what, n, want))
     return text, n
+
+
+def _idx_exprs(expr, var='(?:args|exec_args)'):
+    """all `args[...]` index sub-expressions of expr (balanced)"""
+    out = []
+    m = rl.code_mask(expr)
+    for mm in re.finditer(r'\b%s\[' % var, expr):
+        if not m[mm.start()]:
+            continue
+        cl = rl.match_close(expr, m, mm.end() - 1)
+        st = mm.start()
+        if st > 0 and expr[st - 1] == '&':
+            st -= 1
+        e = rl.norm_ws(expr[st:cl + 1])
+        if e not in out:
+            out.append(e)
+    return out
+
+
+def _apply_prim(text, what):
+    """R10: matcher-constructor expressions -> verif_prim(label, i, (index exprs))"""
+    n = 0
+    labels = []
+    pos = 0
+    while True:
+        m = rl.code_mask(text)
+        mm = None
+        for cand in re.finditer(r'\bSome\(', text[pos:]):
+            if m[pos + cand.start()]:
+                mm = cand
+                break
+        if mm is None:
+            break
+        st = pos + mm.start()
+        op = pos + mm.end() - 1
+        cl = rl.match_close(text, m, op)
+        inner = ''.join(ch if m[op + 1 + k] else ' ' for k, ch in enumerate(text[op + 1:cl]))
+        t = inner.strip().rstrip(',').strip()
+        if not t.endswith('.into_box()'):
+            pos = op + 1
+            continue
+        expr = t[:-len('.into_box()')].rstrip()
+        fallible = expr.endswith('?')
+        if fallible:
+            expr = expr[:-1].rstrip()
+        lab = re.match(r'[A-Za-z_][\w:]*', expr)
+        if not lab:
+            raise Undecided('rule %s: cannot label constructor %r' % (what, expr[:60]))
+        label = lab.group(0)
+        idx = _idx_exprs(expr)
+        tup = '(' + ''.join(e + ', ' for e in idx) + ')'
+        if label in ('matcher', 'sub_matcher'):
+            repl = 'Some(%s)' % label
+        elif label.startswith('RegexMatcher'):
+            ci = 'true' if re.search(r',\s*true\s*\)$', expr) else 'false'
+            rt = re.search(r'RegexMatcher::new\(\s*([^,]+),', expr).group(1).strip()
+            repl = 'Some(verif_prim_regex(%s, %s, i, %s)?)' % (rt, ci, tup)
+        elif fallible:
+            repl = 'Some(verif_prim_try("%s", i, %s)?)' % (label, tup)
+        else:
+            repl = 'Some(verif_prim("%s", i, %s))' % (label, tup)
+        labels.append(label)
+        text = _pad_sub(text, st, cl + 1, repl)
+        pos = st + len(repl)
+        n += 1
+    # `let matcher = <constructor chain>;`
+    pos = 0
+    while True:
+        m = rl.code_mask(text)
+        mm = None
+        for cand in re.finditer(r'\blet matcher = ', text[pos:]):
+            if m[pos + cand.start()]:
+                mm = cand
+                break
+        if mm is None:
+            break
+        st = pos + mm.start()
+        semi = rl.first_code_char(text, m, ';', st)
+        expr = text[st + len('let matcher = '):semi]
+        lab = re.match(r'\s*([A-Za-z_][\w:]*)', expr).group(1)
+        idx = _idx_exprs(expr)
+        tup = '(' + ''.join(e + ', ' for e in idx) + ')'
+        repl = 'let matcher = verif_prim_try("%s", i, %s)?' % (lab, tup)
+        labels.append(lab)
+        text = _pad_sub(text, st, semi, repl)
+        pos = st + len(repl)
+        n += 1
+    return text, n, labels
 
 
 def _body_open(text, m, kind_fn=True):
@@ -349,7 +446,7 @@ def _cfg_drop(text, pred, strip_only, what):
     return text, n
 
 
-def render_item(item, repo=None, vac=False):
+def render_item(item, repo=None, vac=False, variant=None):
     """returns list of (line, origin)"""
     repo = repo or REPO
     path = os.path.join(repo, item.file)
@@ -403,6 +500,10 @@ def render_item(item, repo=None, vac=False):
             name = [k for k in re.sub(r'<<.*?>>(?!>)', '', arg).replace('=>', ' ').split() if '=' not in k and k != 'unchecked'][0]
             text, n = _apply_call(text, name, pl[0], opts, what)
             item.rule_counts.append(('call ' + name, n))
+        elif word == 'prim':
+            text, n, labels = _apply_prim(text, what)
+            item.rule_counts.append(('R10 prim', n))
+            item.prim_labels = labels
         elif word == 'okloop':
             # `Ok(loop { ... break V; ... })` as the tail expression of a fn
             # -> `loop { ... return Ok(V); ... }` (Verus has no `break value`)
@@ -524,6 +625,34 @@ def render_item(item, repo=None, vac=False):
             if k > len(loops):
                 raise Undecided('lost anchor: %s has %d loops, contract is keyed on loop %d' % (item.id, len(loops), k))
             inserts.append((loops[k - 1][1], order, lab))
+        elif kind == 'split':
+            # case split (sound proof by cases): variant 0 proves the cases exhaustive and stops there,
+            # variant j assumes case j; the unit verifies iff every variant does
+            pl, opts = _parse_delim(arg)
+            hits = [mm for mm in re.compile(pl[0], re.M).finditer(text) if mk[mm.start()]]
+            if len(hits) < 1:
+                raise Undecided('lost anchor of case split in %s' % item.id)
+            off = text.rfind('\n', 0, hits[0].start()) + 1
+            cases = []
+            for ltxt, uln in blines:
+                if ':' in ltxt and ltxt.strip() and not ltxt.strip().startswith('//'):
+                    nm, cond = ltxt.split(':', 1)
+                    cases.append((nm.strip(), cond.strip(), uln))
+            conds = [c for _, c, _ in cases if c != '*']
+            allc = ' || '.join('(%s)' % c for c in conds)
+            full = [(n, (c if c != '*' else '!(%s)' % allc), u) for n, c, u in cases]
+            item.split_cases = [n for n, _, _ in full]
+            if variant is None or variant == 0:
+                org = {'k': 'spl', 'item': item.id, 'uline': blines[0][1] if blines else 0, 'upath': item.upath, 'tags': item.tags,
+                       'label': 'split.exhaustive', 'unit': item.unit, 'file': item.file}
+                ex = ' || '.join('(%s)' % c for _, c, _ in full)
+                lines_ = [('assert(%s); // the cases of the split are exhaustive' % ex, org),
+                          ('assume(false); // case-split: the rest of this path is proved in the case variants', dict(org, label=None))]
+            else:
+                n_, c_, u_ = full[variant - 1]
+                org = {'k': 'spl', 'item': item.id, 'uline': u_, 'upath': item.upath, 'tags': item.tags, 'label': None, 'unit': item.unit, 'file': item.file}
+                lines_ = [('assume(%s); // case-split: case %s (exhaustiveness proved in variant 0)' % (c_, n_), org)]
+            inserts.append((off, order, lines_))
         elif kind == 'hint':
             w = arg.split()[0]
             if w == 'start':
@@ -611,7 +740,7 @@ def _label_lines(blines, item):
     return res
 
 
-def generate(unit_path, repo=None, vac=False):
+def generate(unit_path, repo=None, vac=False, variant=None):
     meta, nodes = parse_unit(unit_path)
     lines = []
     items = []
@@ -621,7 +750,7 @@ def generate(unit_path, repo=None, vac=False):
             lines.append((text, {'k': 'unit', 'uline': uln, 'upath': srcfile, 'tags': tags, 'unit': meta['unit']}))
         else:
             it = node[1]
-            rendered = render_item(it, repo, vac)
+            rendered = render_item(it, repo, vac, variant)
             lines.extend(rendered)
             items.append(it)
     # literal-text labels: `//# label tags` on literal lines
@@ -641,9 +770,9 @@ def generate(unit_path, repo=None, vac=False):
     return meta, lines, items
 
 
-def write_generated(unit_path, outdir, repo=None, vac=False):
-    meta, lines, items = generate(unit_path, repo, vac)
-    name = meta['unit'] + ('_vac' if vac else '')
+def write_generated(unit_path, outdir, repo=None, vac=False, variant=None):
+    meta, lines, items = generate(unit_path, repo, vac, variant)
+    name = meta['unit'] + ('_vac' if vac else '') + ('' if variant is None else '_case%d' % variant)
     os.makedirs(outdir, exist_ok=True)
     rs = os.path.join(outdir, name + '.rs')
     with open(rs, 'w') as f:
